@@ -49,6 +49,35 @@ def run_replica(ops, mask):
     return {"results": results, "audit": audit, "store": store}
 
 
+def restore_equals_snapshot(ops, run, note=""):
+    snap = {}
+    for k, op in enumerate(ops):
+        if k >= len(run):
+            break
+        if op["op"] == "snapshot" and "dump" in run[k]:
+            snap[op["key"]] = run[k]["dump"]
+        if op["op"] == "restore" and op["key"] in snap:
+            got = run[k].get("obj")
+            if got != snap[op["key"]]:
+                return {"kind": "restore", "at": k, "op": op, "sut": run[k], "ref": {"obj": snap[op["key"]]},
+                        "why": "restored object differs from what was packed" + note}
+    return None
+
+
+def raw_restore_check(ops):
+    """oracle (iii) once more with *no* neutraliser active: whatever a query may leave behind on one restored copy
+    (the recorded write-back of C09-KF1 does), unpacking the same string again must still give what was packed.
+    Only (iii) is evaluated in this execution – lock-step is not (primary aliases and replica copies legitimately
+    drift apart once a copy absorbs state)."""
+    if not any(o["op"] == "restore" for o in ops):
+        return None
+    rep = run_replica(ops, ())
+    for k, op in enumerate(ops):
+        if op["op"] == "snapshot" and k < len(rep["results"]) and "snap" not in rep["results"][k]:
+            return None
+    return restore_equals_snapshot(ops, rep["results"], " (execution without neutralisers)")
+
+
 def lockstep(ops, primary, replica):
     first = next((i for i, o in enumerate(ops) if o["op"] == "snapshot"), len(ops))
     pr, rr = primary["results"], replica["results"]
@@ -57,20 +86,9 @@ def lockstep(ops, primary, replica):
             return None   # the object could not be packed at all (not a b64-able handle): nothing to compare
     # (iii) every restore reproduces what was packed (dump taken at snapshot time, same execution) – also for
     #       restores that follow a caller's in-place edit of an earlier restored copy
-    for name, run in (("replica", rr), ("primary-process", None)):
-        if run is None:
-            continue
-        snap = {}
-        for k, op in enumerate(ops):
-            if k >= len(run):
-                break
-            if op["op"] == "snapshot" and "dump" in run[k]:
-                snap[op["key"]] = run[k]["dump"]
-            if op["op"] == "restore" and op["key"] in snap:
-                got = run[k].get("obj")
-                if got != snap[op["key"]]:
-                    return {"kind": "restore", "at": k, "op": op, "sut": run[k], "ref": {"obj": snap[op["key"]]},
-                            "why": "restored object differs from what was packed"}
+    d = restore_equals_snapshot(ops, rr)
+    if d is not None:
+        return d
     stop = next((i for i, o in enumerate(ops) if o["op"] == "call" and o.get("m") == "mutate"), len(ops))
     for k in range(first, stop):
         op = ops[k]
@@ -251,6 +269,7 @@ class C17:
     def generate(rng, index, tier, mask, cache):
         oracle = lambda ops, k: engine.reference(ops, k, mask, cache)
         ops, refs, meta = gen_c17(rng, oracle, index, tier)
+        meta["raw_iii"] = bool(mask) and index % 3 == 0
         return {"ops": ops, "refs": refs, "meta": meta}
 
     @staticmethod
@@ -259,7 +278,11 @@ class C17:
         primary = run_primary(ops, mask)
         replica = run_replica(ops, mask)
         div = lockstep(ops, primary, replica)
-        return {"divergence": div, "sut": replica, "checked": len(ops)}
+        hits = {}
+        if div is None and case["meta"].get("raw_iii"):
+            div = raw_restore_check(ops)
+            hits["c17:restore==packed also without neutralisers"] = 1
+        return {"divergence": div, "sut": replica, "checked": len(ops), "hits": hits}
 
     @staticmethod
     def check_raw(case, cache):
@@ -267,7 +290,10 @@ class C17:
 
     @staticmethod
     def recheck(ops, mask, cache):
-        return lockstep(ops, run_primary(ops, mask), run_replica(ops, mask))
+        d = lockstep(ops, run_primary(ops, mask), run_replica(ops, mask))
+        if d is None and mask:
+            d = raw_restore_check(ops)
+        return d
 
     @staticmethod
     def signature(meta):
